@@ -56,6 +56,10 @@ type FuncContract struct {
 	NoSafety  bool
 	Asserts   []*AssertSpec
 	TypeReqs  []TypeReq // static type facts required of arguments (decided by go/types)
+	// PanicsWith (panics_with T1, T2): every explicit panic(v) raised by the function,
+	// directly or through callees, has one of these dynamic types (obligation at each
+	// panic site); used where a caller recovers and type-asserts the value.
+	PanicsWith []*TypeExpr
 	Defines   []*Clause // definitional abstractions: assumed at call sites, not proved (listed as assumptions)
 	Decreases []Expr
 	File      string
@@ -142,7 +146,7 @@ var stmtKeywords = map[string]bool{
 	"spec": true, "pred": true, "lemma": true, "axiom": true, "func": true, "interface": true, "functype": true,
 	"prop": true, "mode": true, "requires": true, "ensures": true, "panics": true, "modifies": true,
 	"decreases": true, "loop": true, "invariant": true, "closure": true, "trusted": true, "inline": true,
-	"ensures_assumed": true, "complete": true, "assert": true, "assert_if_present": true, "assert_then": true, "defines": true, "lift": true, "requires_impl": true, "using": true, "opt": true, "nosafety": true, "induction": true, "opaque_spec": true, "opaque_pred": true,
+	"ensures_assumed": true, "complete": true, "panics_with": true, "assert": true, "assert_if_present": true, "assert_then": true, "defines": true, "lift": true, "requires_impl": true, "using": true, "opt": true, "nosafety": true, "induction": true, "opaque_spec": true, "opaque_pred": true,
 }
 
 type stmt struct {
@@ -364,6 +368,17 @@ func (cs *Contracts) loadContractFile(path, importPath string, external bool) er
 				return fmt.Errorf("%s:%d: requires_impl [label] param pkg.Iface", path, s.line)
 			}
 			curF.TypeReqs = append(curF.TypeReqs, TypeReq{Label: label, Props: props, Param: f[0], Iface: f[1]})
+		case "panics_with":
+			if curF == nil {
+				return fmt.Errorf("%s:%d: panics_with outside func", path, s.line)
+			}
+			for _, part := range splitTop(s.rest) {
+				te, err := parseTypeExpr(strings.TrimSpace(part))
+				if err != nil {
+					return fmt.Errorf("%s:%d: %v", path, s.line, err)
+				}
+				curF.PanicsWith = append(curF.PanicsWith, te)
+			}
 		case "lift":
 			if curF == nil {
 				return fmt.Errorf("%s:%d: lift outside func", path, s.line)
